@@ -184,15 +184,17 @@ def discharge(obs, lw: L.Lowerer = None, timeout=20.0, levels=(1, 2), pool=None,
         res = pool.run(jobs, groups=groups, final=final)
         state["queries"] += len(jobs)
         wins = {}
-        for (o, name, lv), r in zip(tags, res):
+        for qi, ((o, name, lv), r) in enumerate(zip(tags, res)):
             o.time += r.get("time", 0.0)
             if r["result"] == "unsat" and o.verdict != "discharged":
                 o.verdict = "discharged"
                 o.level = "%s/%d" % (name, lv)
                 o.model = None
                 o.detail = ""
+                if o.text is not None:
+                    o.text = jobs[qi][0]  # the kept sample is the query that decided the obligation (cvc5 re-decides that one)
                 wins[(name, lv)] = wins.get((name, lv), 0) + 1
-        for (o, name, lv), r in zip(tags, res):
+        for qi, ((o, name, lv), r) in enumerate(zip(tags, res)):
             if o.verdict == "discharged":
                 continue
             if r["result"] == "sat" and not name.startswith("cut"):
@@ -201,6 +203,8 @@ def discharge(obs, lw: L.Lowerer = None, timeout=20.0, levels=(1, 2), pool=None,
                 if lv >= maxlevel:
                     o.verdict = "candidate"
                     o.level = "%s/%d" % (name, lv)
+                    if o.text is not None:
+                        o.text = jobs[qi][0]
                     wins[(name, lv)] = wins.get((name, lv), 0) + 1
             if o.verdict not in ("candidate",):
                 o.verdict = "inconclusive"
@@ -314,10 +318,12 @@ def sign_pass(left, timeout, pool, state=None, level=2, max_dens=24, max_total=9
         res = pool.run(jobs, groups=[gid.setdefault(id(o), len(gid)) for o in tags], final=lambda qid, r: r["result"] == "unsat")
         if state is not None:
             state["queries"] += len(jobs)
-        for o, r in zip(tags, res):
+        for qi, (o, r) in enumerate(zip(tags, res)):
             o.time += r.get("time", 0.0)
             if r["result"] == "unsat":
                 o.verdict, o.level, o.model, o.detail = "discharged", "signcut/%d" % level, None, ""
+                if o.text is not None:
+                    o.text = jobs[qi][0]
     finally:
         _in_sign_pass[0] = False
 
@@ -355,11 +361,13 @@ def trig_pass(left, timeout, pool, state=None, max_angles=3):
     if state is not None:
         state["queries"] += len(jobs)
     per = {}
-    for (o, mask, name), r in zip(tags, res):
+    for qi, ((o, mask, name), r) in enumerate(zip(tags, res)):
         o.time += r.get("time", 0.0)
         d = per.setdefault(id(o), {"o": o, "unsat": set(), "sat": {}})
         if r["result"] == "unsat":
             d["unsat"].add(mask)
+            if mask == 0:
+                d["text"] = jobs[qi][0]
         elif r["result"] == "sat":
             d["sat"].setdefault(mask, r.get("model", {}))
     for d in per.values():
@@ -367,6 +375,8 @@ def trig_pass(left, timeout, pool, state=None, max_angles=3):
         n = o.meta.pop("_trig_masks")
         if len(d["unsat"]) == n:
             o.verdict, o.level, o.model, o.detail = "discharged", "trigparam/2", None, ""
+            if o.text is not None and d.get("text"):
+                o.text = d["text"]  # (the generic mask; the other masks are unsat as well)
         elif d["sat"] and not (set(d["sat"]) & d["unsat"]):
             o.verdict, o.level = "candidate", "trigparam/2"
             o.model = d["sat"][min(d["sat"])]
